@@ -5,34 +5,74 @@ Definition result_bound (T : ity) (X : Z) : Prop :=
   if sgn T then - (thalf T * thalf T) <= X <= thalf T * thalf T
   else - tmod T < X < tmod T * tmod T.
 
-(* decide every comparison of the goal that the (linear) hypotheses settle *)
-Ltac decide_cmps :=
-  repeat match goal with
-  | |- context [Z.leb ?a ?b] =>
-      first [ replace (Z.leb a b) with true by (symmetry; apply Z.leb_le; lia)
-            | replace (Z.leb a b) with false by (symmetry; apply Z.leb_gt; lia) ]
-  | |- context [Z.ltb ?a ?b] =>
-      first [ replace (Z.ltb a b) with true by (symmetry; apply Z.ltb_lt; lia)
-            | replace (Z.ltb a b) with false by (symmetry; apply Z.ltb_ge; lia) ]
-  end; cbn [andb orb negb].
+Lemma wrap_value_correct t v : wf_ity t -> wrap_value t v = wrap t v.
+Proof.
+  intros Ht. unfold wrap_value, bwrap.
+  ity_cases t Ht; ity_norm;
+    repeat match goal with |- context [if ?c then _ else _] => destruct c eqn:? end; lia.
+Qed.
 
-Lemma regions X :
-  X < -18446744073709551616 \/ -18446744073709551616 <= X < -9223372036854775808 \/
-  -9223372036854775808 <= X < -2147483648 \/ -2147483648 <= X < -32768 \/ -32768 <= X < -128 \/
-  -128 <= X < 0 \/ 0 <= X < 128 \/ 128 <= X < 256 \/ 256 <= X < 32768 \/ 32768 <= X < 65536 \/
-  65536 <= X < 2147483648 \/ 2147483648 <= X < 4294967296 \/ 4294967296 <= X < 9223372036854775808 \/
-  9223372036854775808 <= X < 18446744073709551616 \/ 18446744073709551616 <= X.
-Proof. lia. Qed.
+Lemma promote_fits t v : wf_ity t ->
+  (in_range I64 v \/ (sgn t = false /\ 0 <= v /\ in_range U64 v)) ->
+  in_range (promote_type_for_value t v) v /\ wf_ity (promote_type_for_value t v).
+Proof.
+  intros Ht. unfold promote_type_for_value.
+  ity_cases t Ht; cbv [promote_signed_types promote_unsigned_types first_fit]; ity_norm; intros Hv;
+    repeat match goal with |- context [if ?c then _ else _] => destruct c eqn:? end;
+    ity_norm; split; try reflexivity; try lia; try (destruct Hv as [Hv | (Hs & Hv)]; try discriminate Hs; lia).
+Qed.
+
+Lemma pfv_wf t v : wf_ity t -> wf_ity (promote_type_for_value t v).
+Proof.
+  intros Ht. unfold promote_type_for_value.
+  ity_cases t Ht; cbv [promote_signed_types promote_unsigned_types first_fit];
+    repeat match goal with |- context [if ?c then _ else _] => destruct c end; reflexivity.
+Qed.
+
+Lemma in_rangeb_sub a b x : wf_ity a -> wf_ity b -> tmin b <= tmin a -> tmax a <= tmax b ->
+  in_rangeb b x = false -> in_rangeb a x = false.
+Proof. unfold in_rangeb. intros _ _ H1 H2. lia. Qed.
+
+(* when neither int64 nor (for a non-negative value of an unsigned type) uint64 holds the value,
+   the fallback type is returned *)
+Lemma pfv_fallback t v : wf_ity t -> in_rangeb t v = false ->
+  in_rangeb (if negb (sgn t) && (0 <=? v) then U64 else I64) v = false ->
+  promote_type_for_value t v = if negb (sgn t) && (0 <=? v) then U64 else I64.
+Proof.
+  intros Ht Hr Hf. unfold promote_type_for_value. rewrite Hr.
+  destruct (negb (sgn t) && (0 <=? v)); cbv [promote_signed_types promote_unsigned_types first_fit].
+  - assert (E8 : in_rangeb U8 v = false) by (apply (in_rangeb_sub U8 U64); [reflexivity | reflexivity | vm_compute; congruence | vm_compute; congruence | exact Hf]).
+    assert (E16 : in_rangeb U16 v = false) by (apply (in_rangeb_sub U16 U64); [reflexivity | reflexivity | vm_compute; congruence | vm_compute; congruence | exact Hf]).
+    assert (E32 : in_rangeb U32 v = false) by (apply (in_rangeb_sub U32 U64); [reflexivity | reflexivity | vm_compute; congruence | vm_compute; congruence | exact Hf]).
+    rewrite E8, E16, E32, Hf, !Bool.andb_false_r. reflexivity.
+  - assert (E8 : in_rangeb I8 v = false) by (apply (in_rangeb_sub I8 I64); [reflexivity | reflexivity | vm_compute; congruence | vm_compute; congruence | exact Hf]).
+    assert (E16 : in_rangeb I16 v = false) by (apply (in_rangeb_sub I16 I64); [reflexivity | reflexivity | vm_compute; congruence | vm_compute; congruence | exact Hf]).
+    assert (E32 : in_rangeb I32 v = false) by (apply (in_rangeb_sub I32 I64); [reflexivity | reflexivity | vm_compute; congruence | vm_compute; congruence | exact Hf]).
+    rewrite E8, E16, E32, Hf, !Bool.andb_false_r. reflexivity.
+Qed.
 
 Lemma fold_value_agrees T X : wf_ity T -> result_bound T X ->
   let t' := promote_type_for_value T X in
   let v := wrap_value t' X in
   wf_ity t' /\ in_range t' v /\ (in_range T X -> v = X) /\ (~ in_range T X -> v = X \/ wrap T X = v).
 Proof.
-  intros HT. unfold result_bound, promote_type_for_value, wrap_value, bwrap.
-  ity_cases T HT; cbv [promote_signed_types promote_unsigned_types first_fit]; ity_norm; intros HX;
-    destruct (regions X) as [R|[R|[R|[R|[R|[R|[R|[R|[R|[R|[R|[R|[R|[R|R]]]]]]]]]]]]]];
-    try (exfalso; lia); decide_cmps;
-    repeat (match goal with |- context [if ?c then _ else _] => destruct c eqn:? end);
-    ity_norm; repeat split; intros; first [reflexivity | lia | (left; lia) | (right; lia)].
-Time Qed.
+  intros HT HB. cbv zeta. pose proof (pfv_wf T X HT) as Hw.
+  rewrite wrap_value_correct by exact Hw.
+  split; [exact Hw|]. split; [apply wrap_range; exact Hw|]. split.
+  - intros Hin. unfold promote_type_for_value. apply in_rangeb_spec in Hin. rewrite Hin.
+    apply wrap_id; [exact HT | apply in_rangeb_spec; exact Hin].
+  - intros Hn. apply in_rangeb_false in Hn.
+    destruct (in_rangeb (if negb (sgn T) && (0 <=? X) then U64 else I64) X) eqn:F.
+    + (* some 64 bit type holds X: the ladder finds a type that does *)
+      left. apply wrap_id; [exact Hw|]. apply promote_fits; [exact HT|].
+      destruct (sgn T) eqn:S; cbn [negb andb] in F.
+      * left. apply in_rangeb_spec. exact F.
+      * destruct (0 <=? X) eqn:P; cbn [andb] in F.
+        -- right. repeat split; try lia. apply in_rangeb_spec. exact F.
+        -- left. apply in_rangeb_spec. exact F.
+    + right. rewrite (pfv_fallback T X HT Hn F).
+      (* X is beyond 64 bits: only possible for a 64 bit T, and then both reductions coincide *)
+      revert HB Hn F. unfold result_bound.
+      ity_cases T HT; ity_norm; intros HB Hn F;
+        repeat match goal with |- context [if ?c then _ else _] => destruct c eqn:? end; ity_norm; lia.
+Qed.
